@@ -180,10 +180,14 @@ def _remove_line_directives(csource):
 def _put_back_line_directives(csource, line_directives):
     def replace(m):
         s = m.group()
-        if not s.startswith('#line@'):
-            raise AssertionError("unexpected #line directive "
-                                 "(should have been processed and removed")
-        return line_directives[int(s[6:])]
+        try:
+            if not s.startswith('#line@'):
+                raise ValueError
+            return line_directives[int(s[6:])]
+        except (ValueError, IndexError):
+            # not one of the '#line@N' from _remove_line_directives()
+            raise CDefError("unexpected #line directive (it should be "
+                            "alone on its line, e.g. not after a comment)")
     return _r_line_directive.sub(replace, csource)
 
 def _preprocess(csource):
